@@ -327,11 +327,19 @@ def handle (j : Json) : R Json := do
     return Json.mkObj [("init", stJson s0), ("states", jarr ((orun cfg s0 ops).map stJson))]
   | "judge_struct" =>
     let members ← fldStrs j "members"
+    -- a record: [struct, members] or [struct, members, {ok, announced, flagged}] (error states)
     let trace ← (← fldArr j "trace").mapM (fun e => do
       match (← arr e) with
-      | [a, b] => return (← parseDict a, ← parseDict b)
+      | [a, b] => return (← parseDict a, ← parseDict b, ({} : SInfo))
+      | [a, b, i] => return (← parseDict a, ← parseDict b,
+          ({ ok := ← fldBool i "ok", announced := ← fldBool i "announced", flagged := ← fldStrs i "flagged" } : SInfo))
       | _ => throw "bad trace entry")
-    return verdict (judgeStruct members trace 0) (badIdxs (fun e => membersAgreeB members e.1 e.2) trace 0)
+    let bads := badIdxs (structRecOkB members) trace 0
+    -- which clause each rejected record breaks (for the report)
+    let clauses := (trace.zip (List.range trace.length)).filterMap (fun (e, i) =>
+      if structRecOkB members e then none
+      else some (jarr [jnat i, Json.str (if membersAgreeB members e.1 e.2.1 then "member-left-in-error-state" else "values-differ")]))
+    return Json.mkObj [("bad", jopt jnat (judgeStructR members trace 0)), ("bads", jnats bads), ("clauses", jarr clauses)]
   | "floatenum" =>
     let cfg : FCfg := { vdict := ← parseVdict (← fld j "vdict"), lo := ← fldInt j "lo", hi := ← fldInt j "hi",
                         hasR := ← fldBool j "hasR", hasW := ← fldBool j "hasW", omitUnch := ← fldBool j "omit" }
